@@ -133,7 +133,7 @@ var fullKeys = []string{"ok", "cur", "panic", "effs"}
 
 // C02: execution is demand-driven and in lockstep with the consumer.
 func C02(c *vf.Check) {
-	runFam(c, famSpec{id: "C02", fam: "eff", name: "F_eff", sizeQ: "3", sizeT: "4", tapeQ: "2", tapeT: "3", callsQ: 4, callsT: 5,
+	runFam(c, famSpec{id: "C02", fam: "eff", name: "F_eff", sizeQ: "3", sizeT: "4", tapeQ: "3", tapeT: "3", callsQ: 4, callsT: 5,
 		keys: fullKeys, truncations: true, lazyT: true,
 		rule:   "every program of F_eff (control-flow family with an effect statement alphabet and effectful yield expressions r.V(id,a)) up to MaxSize x every tape x EVERY truncation length k in 0..MaxCalls as a separate run on a fresh iterator; the observation is the interleaving: recorder entries written during construction (must be none), during each MoveNext (exactly the entries between two yields, in order, including the yielded expression's own), and after the consumer stopped (must be none); non-trivial = run with at least one effect or yield",
 		assume: []string{"'nothing further runs' is observed as: the recorder does not grow after the last call (after runtime.Gosched)"}})
